@@ -911,9 +911,10 @@ def run(tier):
                 sub_fail.append((len(before) + sum(len(o[2]) for o in ops) + 10 * (len(ops) - 1), i))
             elif (sa[i] != M or M != S_) and len(corr_diffs) < 5:
                 corr_diffs.append({'section': 'sub', 'case': line, 'implementation': sa[i], 'loop_model': M, 'specification': S_})
-        if sub_fail:
-            sub_fail.sort()
-            i = sub_fail[0][1]
+        sub_fail.sort()
+        # the first failing corpus case (the corpus runs first) and the smallest failing case of the generator families
+        report = [j for (_, j) in sub_fail if sub_cases[j][0] == 'corpus'][:1] + [j for (_, j) in sub_fail if sub_cases[j][0] != 'corpus'][:1]
+        for i in report:
             fam, line = sub_cases[i]
             parts = sb[i].split(' # ')
             M, S_, H = parts[0][2:], parts[1][2:], parts[2][2:]
